@@ -402,7 +402,7 @@ pub fn run_check<P: Property>(p: &P, tier: Tier) -> i32 {
                 let o = eval_one(p, c, tier, seed, false);
                 let d = done.fetch_add(1, Ordering::Relaxed) + 1;
                 if progress && d % 50 == 0 {
-                    eprintln!("[{id}] {d}/{total}");
+                    crate::note!("[{id}] {d}/{total}");
                 }
                 o
             })
@@ -470,7 +470,7 @@ pub fn run_check<P: Property>(p: &P, tier: Tier) -> i32 {
             (cases[idx].clone(), msg.clone(), 0)
         };
         let path = write_replay(id, &sig, &msg2, &case, seed);
-        eprintln!("[{id}] signature {sig}: shrunk in {steps} steps -> {}", path.display());
+        crate::note!("[{id}] signature {sig}: shrunk in {steps} steps -> {}", path.display());
         violations.push((sig, msg2, path));
     }
 
@@ -479,7 +479,7 @@ pub fn run_check<P: Property>(p: &P, tier: Tier) -> i32 {
         if known_seen.contains_key(&k.signature) {
             println!("KNOWN-FINDING: property={id} {} [{}]", k.what_fails, k.signature);
         } else {
-            eprintln!(
+            crate::note!(
                 "[{id}] note: listed known finding {} did not reproduce in this run",
                 k.signature
             );
@@ -492,7 +492,7 @@ pub fn run_check<P: Property>(p: &P, tier: Tier) -> i32 {
         println!("  detail: {m}");
     }
     for w in &inconclusive {
-        eprintln!("[{id}] inconclusive: {w}");
+        crate::note!("[{id}] inconclusive: {w}");
     }
 
     let wall = t0.elapsed().as_secs_f64();
@@ -532,7 +532,7 @@ pub fn run_check<P: Property>(p: &P, tier: Tier) -> i32 {
         .expect("write evidence");
     let _ = std::fs::remove_dir_all(scratch_root(id));
 
-    eprintln!(
+    crate::note!(
         "[{id}] {} tier: {} evaluations, {} distinct non-trivial, {} violations, {} known hits, {:.1}s",
         tier.name(),
         evaluations,
@@ -557,7 +557,7 @@ pub fn run_replay<P: Property>(p: &P, path: &Path) -> i32 {
     let case: P::Case = match load_replay(path) {
         Ok(c) => c,
         Err(e) => {
-            eprintln!("cannot load replay: {e}");
+            crate::note!("cannot load replay: {e}");
             return 2;
         }
     };
